@@ -136,6 +136,8 @@ def mutations(text, ops=None):
             yield ('bare@%d:%s' % (i, sid), join_segments(d, segs[:i] + [sid] + segs[i + 1:]))
             yield ('extra-elements@%d:%s' % (i, sid), join_segments(d, segs[:i] + [segs[i] + (ele + 'A') * 20] + segs[i + 1:]))
             yield ('extra-components@%d:%s' % (i, sid), join_segments(d, segs[:i] + [segs[i] + (sub + 'A') * 3] + segs[i + 1:]))
+            yield ('trailing-empty-elements@%d:%s' % (i, sid), join_segments(d, segs[:i] + [segs[i] + ele + ele] + segs[i + 1:]))
+            yield ('trailing-empty-component@%d:%s' % (i, sid), join_segments(d, segs[:i] + [segs[i] + sub] + segs[i + 1:]))
             yield ('long-element@%d:%s' % (i, sid), join_segments(d, segs[:i] + [segs[i] + ele + 'A' * 9000] + segs[i + 1:]))
             for orphan in ('SE' + ele + '1' + ele + '0001', 'GE' + ele + '1' + ele + '1', 'IEA' + ele + '1' + ele + '000000001',
                            'ST' + ele + '837' + ele + '0009', 'GS' + ele + 'HC' + ele + 'S' + ele + 'R' + ele + '20040102' + ele + '1200' + ele + '9' + ele + 'X' + ele + '004010X098A1',
